@@ -6,48 +6,76 @@ import DEvo.Generated.Tables
 namespace DEvo.Props.C13
 open DEvo.Ser
 
-def seps : List (String × String) := DEvo.Generated.qSeparators
+/-- the printer configuration read off the current source -/
+def cfg : PyCfg :=
+  { seps := DEvo.Generated.qSeparators, singleChildFull := DEvo.Generated.qSingleChildFull,
+    combOps := DEvo.Generated.combOperators, combMethods := DEvo.Generated.combMethods,
+    combParens := DEvo.Generated.combParens }
 
 def kv (k : String) (v : V) : V := .tuple (.cons (.str k) (.cons v .nil))
 def qa : V := .q none false (.cons (kv "a" (.int 1)) .nil)
 def qb : V := .q none false (.cons (kv "b" (.int 2)) .nil)
-
-/-- F13: a multi-child XOR has no separator: `serialize_to_python` raises KeyError -/
-theorem C13_cex_xor :
-    roundTrip [("OR", " | "), ("AND", " & ")] (.q (some "XOR") false (.cons (kv "a" (.int 1)) (.cons (kv "b" (.int 2)) .nil)))
-      = .renderError (.keyError "XOR") := by decide
-
-/-- F13: a Q whose only child is a Q is subscripted -/
-theorem C13_cex_single_q_child :
-    roundTrip seps (.q none false (.cons qa .nil)) = .renderError (.typeError "'Q' object is not subscriptable") := by
-  decide
-
-/-- F13: a single-child Q loses its connector -/
-theorem C13_cex_connector_lost :
-    roundTrip seps (.q (some "OR") false (.cons (kv "a" (.int 1)) .nil)) = .value qa := by decide
-
+def qXor : V := .q (some "XOR") false (.cons (kv "a" (.int 1)) (.cons (kv "b" (.int 2)) .nil))
 def fA : V := .obj "django.db.models.F" (.cons (.str "a") .nil) .nil
 def fB : V := .obj "django.db.models.F" (.cons (.str "b") .nil) .nil
 def fC : V := .obj "django.db.models.F" (.cons (.str "c") .nil) .nil
 def comb (op : String) (l r : V) : V := .obj combPath (.cons l (.cons (.str op) (.cons r .nil))) .nil
 
-/-- F48: `(a + b) * c` is written `a + b * c`, which Python reads as `a + (b * c)` -/
+/-! ## the pinned code (findings F13 and F48, repaired in /repo) -/
+
+/-- F13: a multi-child XOR had no separator: `serialize_to_python` raised KeyError -/
+theorem C13_cex_xor : roundTrip .pinned qXor = .renderError (.keyError "XOR") := by decide
+
+/-- F13: a Q whose only child is a Q was subscripted -/
+theorem C13_cex_single_q_child :
+    roundTrip .pinned (.q none false (.cons qa .nil)) = .renderError (.typeError "'Q' object is not subscriptable") := by
+  decide
+
+/-- F13: a single-child Q lost its connector -/
+theorem C13_cex_connector_lost :
+    roundTrip .pinned (.q (some "OR") false (.cons (kv "a" (.int 1)) .nil)) = .value qa := by decide
+
+/-- F48: `(a + b) * c` was written `a + b * c`, which Python reads as `a + (b * c)` -/
 theorem C13_cex_precedence :
-    roundTrip seps (comb "*" (comb "+" fA fB) fC) = .value (comb "+" fA (comb "*" fB fC)) := by decide
+    roundTrip .pinned (comb "*" (comb "+" fA fB) fC) = .value (comb "+" fA (comb "*" fB fC)) := by decide
 
 /-- F48: the MOD connector `%%` is not a Python operator -/
-theorem C13_cex_mod : roundTrip seps (comb "%%" fA fB) = .loadError .syntaxError := by decide
+theorem C13_cex_mod : roundTrip .pinned (comb "%%" fA fB) = .loadError .syntaxError := by decide
+
+/-- F48: BITXOR `#` starts a comment: the right operand silently disappears -/
+theorem C13_cex_bitxor_comment : roundTrip .pinned (comb "#" fA fB) = .value fA := by decide
+
+/-! ## the current source -/
+
+/-- the same values round-trip with the configuration the translator reads off the source now -/
+theorem C13_fixed_witnesses :
+    roundTrip cfg qXor = .value qXor ∧
+    roundTrip cfg (.q none false (.cons qa .nil)) = .value (.q none false (.cons qa .nil)) ∧
+    roundTrip cfg (.q (some "OR") false (.cons (kv "a" (.int 1)) .nil))
+      = .value (.q (some "OR") false (.cons (kv "a" (.int 1)) .nil)) ∧
+    roundTrip cfg (comb "*" (comb "+" fA fB) fC) = .value (comb "*" (comb "+" fA fB) fC) ∧
+    roundTrip cfg (comb "%%" fA fB) = .value (comb "%%" fA fB) ∧
+    roundTrip cfg (comb "^" fA fB) = .value (comb "^" fA fB) ∧
+    roundTrip cfg (comb "#" fA fB) = .value (comb "#" fA fB) := by
+  refine ⟨by decide, by decide, by decide, by decide, by decide, by decide, by decide⟩
 
 /-- F49: `Lower` lives in django.db.models.functions; `models.Lower` does not exist -/
 theorem C13_cex_function :
-    roundTrip seps (.obj "django.db.models.functions.Lower" (.cons (.str "name") .nil) .nil)
+    roundTrip cfg (.obj "django.db.models.functions.Lower" (.cons (.str "name") .nil) .nil)
       = .loadError (.attributeError "django.db.models.functions.Lower") := by decide
 
+/-- F50: a non-negated Q child with its parent's connector is merged into the parent on load -/
+theorem C13_cex_q_flattened :
+    roundTrip cfg (.q none false (.cons (.q none false (.cons (kv "a" (.int 1)) (.cons (kv "b" (.int 2)) .nil)))
+        (.cons (kv "c" (.int 3)) .nil)))
+      = .value (.q none false (.cons (kv "a" (.int 1)) (.cons (kv "b" (.int 2)) (.cons (kv "c" (.int 3)) .nil)))) := by
+  decide
+
 /-- a value that needs user input renders to text that does not load -/
-theorem C13_placeholder : roundTrip seps (.obj placeholderPath .nil .nil) = .loadError .syntaxError := by decide
+theorem C13_placeholder : roundTrip cfg (.obj placeholderPath .nil .nil) = .loadError .syntaxError := by decide
 
 /-- sanity: `(Q(a=1) | Q(b=2)) & ~Q(a=1)` comes back unchanged -/
-example : roundTrip seps (.q none false (.cons (.q (some "OR") false (.cons (kv "a" (.int 1)) (.cons (kv "b" (.int 2)) .nil)))
+example : roundTrip cfg (.q none false (.cons (.q (some "OR") false (.cons (kv "a" (.int 1)) (.cons (kv "b" (.int 2)) .nil)))
       (.cons (.q none true (.cons (kv "a" (.int 1)) .nil)) .nil)))
     = .value (.q none false (.cons (.q (some "OR") false (.cons (kv "a" (.int 1)) (.cons (kv "b" (.int 2)) .nil)))
       (.cons (.q none true (.cons (kv "a" (.int 1)) .nil)) .nil))) := by decide
